@@ -216,3 +216,90 @@ def check(report, res):
         if bad:
             break
     return problems, st
+
+
+# --------------------------------------------------------------------------------------
+# the JSON written next to the report (C10, last clause)
+# --------------------------------------------------------------------------------------
+# quantities the report prints with the opposite sign as a display convention (a credit shown as a deduction in the list of
+# capital costs: Outputs.py writes -1 * RITCValue)
+DISPLAYED_NEGATED = {'Investment Tax Credit'}
+
+
+def unit_spellings():
+    """enum member name (how the JSON spells a unit) -> the texts the report may print for it"""
+    import enum
+
+    import geophires_x.Units as U
+    m = {}
+    for obj in vars(U).values():
+        if isinstance(obj, type) and issubclass(obj, enum.Enum) and obj is not enum.Enum:
+            for mem in obj:
+                m.setdefault(mem.name, set()).add(str(mem.value).strip())
+    return m
+
+
+def _printed_matches(x, tok):
+    """is `tok` (a number as printed) what rounding x to the printed precision gives?  -> True / False / None (not a number)"""
+    from decimal import Decimal, InvalidOperation
+    s = tok.replace(',', '')
+    try:
+        d = Decimal(s)
+        xf = float(x)
+    except (InvalidOperation, ValueError, TypeError):
+        return None
+    if not d.is_finite() or xf != xf or xf in (float('inf'), float('-inf')):
+        return (str(float(d)) == str(xf)) if not d.is_nan() else (xf != xf)
+    q = Decimal(1).scaleb(d.as_tuple().exponent)          # one unit in the last printed place
+    return abs(Decimal(xf) - d) <= q / 2 * (1 + Decimal('1e-6')) + abs(Decimal(xf)) * Decimal('1e-12')
+
+
+def check_json(report, j, spell):
+    """-> (problems, stats).  For every scalar numeric entry of the JSON whose display name (or name) is the label of exactly
+    one 'label: number [unit]' line of the report, printed in the unit the JSON states, the printed number must be the JSON
+    value rounded to the printed precision.  Anything that cannot be matched unambiguously is counted, not judged."""
+    problems = []
+    st = {'json_entries': 0, 'json_compared': 0, 'json_label_absent': 0, 'json_label_ambiguous': 0, 'json_unit_differs': 0}
+    if not isinstance(j, dict):
+        return [('json_mismatch', 'not_an_object', f'the JSON is a {type(j).__name__}')], st
+    stripped = [ln.strip() for ln in report.split('\n')]
+    for key in sorted(j):
+        e = j[key]
+        if not isinstance(e, dict) or 'value' not in e:
+            continue
+        v = e['value']
+        if isinstance(v, bool) or not isinstance(v, (int, float)):
+            continue
+        st['json_entries'] += 1
+        labels = [x for x in dict.fromkeys([e.get('display_name'), e.get('Name'), key]) if isinstance(x, str) and x]
+        tails = None
+        for lab in labels:
+            t = tails_for(stripped, lab)
+            if t:
+                tails = (lab, t)
+                break
+        if tails is None:
+            st['json_label_absent'] += 1
+            continue
+        lab, t = tails
+        if len(t) != 1:
+            st['json_label_ambiguous'] += 1
+            continue
+        toks = t[0].split()
+        if not toks:
+            continue
+        unit_txt = ' '.join(toks[1:])
+        cu = e.get('CurrentUnits')
+        allowed = spell.get(cu, set()) if isinstance(cu, str) else set()
+        if not (unit_txt in allowed or (unit_txt == '' and (not allowed or allowed <= {'', 'None', 'none'}))):
+            st['json_unit_differs'] += 1
+            continue
+        ok = _printed_matches(v, toks[0])
+        if ok is None:
+            continue
+        if not ok and lab in DISPLAYED_NEGATED:
+            ok = _printed_matches(-v, toks[0])
+        st['json_compared'] += 1
+        if not ok:
+            problems.append(('json_mismatch', 'value', f'{key!r}: the JSON says {v!r} {cu}, the report line {lab!r} prints {t[0].strip()!r}'))
+    return problems, st
